@@ -45,6 +45,9 @@ pub struct DiffCfg {
     pub gc: GcCfg,
     pub quarantine: bool,
     pub fuel: u64,
+    /// write one variable of some single-module programs with an unusual spelling (see `run_diff`);
+    /// off where the check itself reads variable names out of error messages (C17)
+    pub respell: bool,
 }
 
 impl Default for DiffCfg {
@@ -55,6 +58,7 @@ impl Default for DiffCfg {
             gc: GcCfg::Default,
             quarantine: false,
             fuel: 3_000_000,
+            respell: true,
         }
     }
 }
@@ -245,7 +249,7 @@ pub fn run_diff(p: &Program, noise: &[u8], cfg: &DiffCfg, rcfg: &RefCfg) -> Diff
     // (`_`, a name that begins like a keyword, ...): which variable and which spelling is a function of
     // the program text. The program itself is unchanged - the reference interpreter runs the AST - so
     // only the scanner and the compiler's name resolution see the difference.
-    if p.modules.is_empty() {
+    if cfg.respell && p.modules.is_empty() {
         let h = crate::rd::fnv64(source.as_bytes());
         if h % 6 == 0 {
             if let Some(name) = respell_candidate(&source, (h >> 8) as usize) {
